@@ -1263,9 +1263,15 @@ func (a *Agent) ToMap() map[string]interface{} {
 	)
 
 	ParentAgent = a.Pivots.Parent
-	a.Pivots.Parent = nil
 
 	Info = structs.Map(a)
+
+	/* the pivot links by name: the agents themselves would lead back here */
+	var Links []string
+	for _, Link := range a.Pivots.Links {
+		Links = append(Links, Link.NameID)
+	}
+	Info["Pivots"] = map[string]any{"Parent": nil, "Links": Links}
 
 	Info["Info"].(map[string]interface{})["Listener"] = nil
 
@@ -1278,7 +1284,6 @@ func (a *Agent) ToMap() map[string]interface{} {
 
 	if ParentAgent != nil {
 		Info["PivotParent"] = ParentAgent.NameID
-		a.Pivots.Parent = ParentAgent
 	}
 
 	Info["MagicValue"] = MagicValue
